@@ -183,6 +183,12 @@ def fixed_place_cases():
     for flow in FLOWS:
         out.append(dict(base, flow=flow, items=[it(cs=['L', 2], ce=['L', 4], rs=['L', 1]), it(), it(), it()]))
         out.append(dict(base, flow=flow, items=[it(rs=['L', 1])]))                       # locked to row 1, alone
+        # css-grid 8.5 step 2: items locked to one axis only, in rows / columns that hold nothing else (F244)
+        out.append(dict(base, flow=flow, items=[it(rs=['L', 2])]))
+        out.append(dict(base, flow=flow, items=[it(cs=['L', 2])]))
+        out.append(dict(base, flow=flow, items=[it(rs=['L', 2], cs=['S', 2]), it(cs=['L', 3], rs=['S', 2])]))
+        out.append(dict(base, flow=flow, items=[it(cs=['L', 1], rs=['L', 1]), it(rs=['L', 2], ce=['S', 2]),
+                                                it(cs=['L', 3], rs=['L', 3]), it(rs=['L', 4])]))
         out.append(dict(base, flow=flow, items=[it(cs=['L', -1], rs=['L', 1])]))         # negative line
         out.append(dict(base, flow=flow, items=[it(cs=['L', 1], rs=['L', -1]), it()]))   # negative row: dropped
         out.append(dict(base, flow=flow, items=[it(rs=['S', 2], cs=['L', 1])]))          # stale first_i: unbound
@@ -304,7 +310,9 @@ def grid_streams(run, rng, thorough):
             seen_sig.add(sig)
             unsigned += sig is None
             clause = ('crashed or hung' if m & 32 else 'overlap of an auto-placed item' if m & 8 else
-                      'area differs from the line numbers' if m & 4 else 'rectangle differs from the area')
+                      'area differs from the line numbers' if m & 4 else
+                      'rectangle differs from the area' if m & 16 else
+                      'an item locked to an otherwise empty row / column does not start on the first line')
             run.fail('grid placement violates the specification (%s)' % clause,
                      {'stream': 'grid-place', 'case': c, 'mask': m, 'status': st,
                       'html': place_html(c), 'impl': o if st == 'ok' else {'exc': o}}, signature=sig)
@@ -315,7 +323,7 @@ def grid_streams(run, rng, thorough):
         run.stream_info('grid-place', outcomes=dict(kinds), spec_failures=sum(1 for m in masks if m & 2),
                         rule='grids of 0..5 x 0..5 explicit px tracks with distinct prime sizes, 1..8 empty items whose '
                              'grid-row/column start/end are drawn from {auto, n in -3..7 except 0, span 1..3}, order in '
-                             '{-1,0,1,2}, grid-auto-flow in {row, column, row dense, column dense}; 44 fixed boundary '
+                             '{-1,0,1,2}, grid-auto-flow in {row, column, row dense, column dense}; 60 fixed boundary '
                              'cases first; distinct = (flow, multiset of item classes definite/locked/auto, no template '
                              'columns?, no template rows?, negative line?, outcome)')
     except RuntimeError as exc:
